@@ -370,7 +370,7 @@ Proof. intros. unfold step. simpl. rewrite H. reflexivity. Qed.
 (* ---- the state of both sides when the entry function is entered ------------------------------------ *)
 
 Definition entry_morph (funcs : list fdef) (n : nat) : morph :=
-  {| mm := map MF funcs ++ map MA (rev (seq 0 n)); mv := []; mf := []; mc := [] |}.
+  {| mm := map MF funcs ++ map MA (rev (seq 0 n)); mv := []; mf := []; mc := []; mi := [] |}.
 
 Lemma entry_morph_ma : forall funcs n c a, mget (entry_morph funcs n) c = Some (MA a) ->
   exists i, c = (length funcs + i)%nat /\ (i < n)%nat /\ a = (n - 1 - i)%nat.
@@ -421,6 +421,7 @@ Proof.
   - intros c fd cenv k [].
   - intros a c [].
   - reflexivity.
+  - intros c [].
 Qed.
 
 (* ---- compile_program_correct_P ------------------------------------------------------------ *)
@@ -606,7 +607,8 @@ End Main.
 
 (* the two levels of the closure fragment: 5 — no function object is used by copy, assignments to names in scope;
    6 — the name of a top-level function / of the running named nested function may be used as a VALUE (the
-   machine makes a copy of the function object), no assignment *)
+   machine makes a copy of the function object), assignment only to names bound by var x = <int_shaped>
+   (Compile4.int_vars) *)
 Theorem compile_program_correct_P56 : forall p args, prog_in_P 5 p || prog_in_P 6 p = true -> forall fuel,
   match run_program fuel p args with
   | OResult v printed => is_intv v = true -> exists k z, run_vm p k args = VRet z printed /\ val_rel v z
